@@ -684,7 +684,7 @@ def frame_independence(seed, n):
                 at = 1e-3 * (1 + sc)      # residuals of thousands of units make the first steps violently non-linear: rounding is amplified a lot
             if len(exp) == 3 and kind == 'SE2' and len(got) == 3:
                 dth = math.remainder(exp[2] - got[2], 2 * math.pi)
-                ok = np.allclose(exp[:2], got[:2], rtol=0, atol=at) and abs(dth) < 1e-6
+                ok = np.allclose(exp[:2], got[:2], rtol=0, atol=at) and abs(dth) < (1e-4 if far_lm else 1e-6 * (1 + sc / 1e3))   # headings see the same amplified rounding as the positions they are solved with
             else:
                 ok = np.allclose(exp, got, rtol=0, atol=at)
             if not ok:
